@@ -3,7 +3,12 @@
 // each use is listed in the evidence of the property it served.
 package vcext
 
-import "strings"
+import (
+	"net"
+	"strings"
+)
+
+var _ net.IP
 
 var _ = strings.ToLower
 
@@ -27,3 +32,23 @@ func spec_lcb(c byte) byte {
 //@   ensures r >= 0 ==> s[r] == c
 //@   ensures r >= 0 ==> forall k int :: { s[k] } 0 <= k && k < r ==> s[k] != c
 //@   ensures r == -1 ==> forall k int :: { s[k] } 0 <= k && k < len(s) ==> s[k] != c
+
+//@ ext strings.Index(s string, substr string) (r int)
+//@   pure
+//@   ensures -1 <= r && r <= len(s) - len(substr) || r == -1
+//@   ensures r >= 0 ==> r + len(substr) <= len(s) && s[r:r+len(substr)] == substr
+//@   ensures len(substr) == 1 && r >= 0 ==> s[r] == substr[0]
+//@   ensures len(substr) == 1 && r >= 0 ==> forall k int :: { s[k] } 0 <= k && k < r ==> s[k] != substr[0]
+//@   ensures len(substr) == 1 && r == -1 ==> forall k int :: { s[k] } 0 <= k && k < len(s) ==> s[k] != substr[0]
+
+//@ ext strings.HasPrefix(s string, prefix string) (r bool)
+//@   pure
+//@   ensures r == (len(s) >= len(prefix) && s[:len(prefix)] == prefix)
+
+//@ pred spec_ipChar(c byte) bool = ('0' <= c && c <= '9') || ('a' <= c && c <= 'f') || ('A' <= c && c <= 'F') || c == ':' || c == '.'
+
+// net.ParseIP accepts only dotted-quad and colon-hex text (no zones): a non-nil result implies the
+// input consists of hex digits, ':' and '.'.
+//@ ext net.ParseIP(s string) (r net.IP)
+//@   pure
+//@   ensures r != nil ==> len(s) >= 2 && forall k int :: { s[k] } 0 <= k && k < len(s) ==> spec_ipChar(s[k])
